@@ -310,6 +310,29 @@ static void handle(int argc, char** argv)
 		}
 		out_free((unsigned char*)c, sizeof(btok_cvc_t)); hex_free(x, n);
 	}
+	/* the structure after a decode, failed or not: every field at its full capacity (the block is exactly
+	   sizeof(btok_cvc_t), so a write past the structure is an ASan report; a write past a field shows here) */
+	else if ((OP("cvcimg") || OP("cvcuimg")) && argc == 2)
+	{
+		btok_cvc_t* c = (btok_cvc_t*)out_buf(sizeof(btok_cvc_t));
+		x = hex_arg(argv[1], &n);
+		if (OP("cvcimg"))
+		{
+			r = btokCVCBodyDec(c, x, n);
+			if (r == ERR) printf("err"); else printf("%zu", r);
+		}
+		else
+		{
+			err_t code = btokCVCUnwrap(c, x, n, 0, 0);
+			printf("%s", code == ERR_BAD_FORMAT ? "badfmt" : "parsed");
+		}
+		printf(" "); put_hex(c->authority, 13); printf(" "); put_hex(c->holder, 13);
+		printf(" "); put_hex(c->pubkey, 128); printf(" %zu ", c->pubkey_len);
+		put_hex(c->from, 6); printf(" "); put_hex(c->until, 6); printf(" ");
+		put_hex(c->hat_eid, 5); printf(" "); put_hex(c->hat_esign, 2); printf(" ");
+		put_hex(c->sig, 96); printf(" %zu", c->sig_len);
+		out_free((unsigned char*)c, sizeof(btok_cvc_t)); hex_free(x, n);
+	}
 	else if (OP("cvcenc") && argc == 9)
 	{
 		btok_cvc_t c[1];
